@@ -1453,6 +1453,18 @@ class Interp(Engine):
     # ---- generators: executed as producers of a ghost output sequence `_out` (laziness is a separate frame question) ----
     def ev_Yield(self, node):
         v = self.ev(node.value) if node.value is not None else SV(Val.none, "none")
+        from .calls import is_inline_callbacks
+        if self.st.frames and is_inline_callbacks(self.frame.func.node):
+            # `yield d` inside @defer.inlineCallbacks AWAITS the Deferred: execution resumes when d has fired -- with its value, or
+            # with its failure's exception raised at the yield (assumed semantics of inlineCallbacks; WHEN that happens is not modelled)
+            if isinstance(v, SV) and parse_tag(v.ty)[0] == "Dfr":
+                r = self.refof(v)
+                self.assume(Val.i(self.get_field(r, "dstate")) != 0)
+                if self.branch(Val.i(self.get_field(r, "dstate")) == 2, "awaited Deferred failed L%d" % node.lineno):
+                    flr = SV(self.get_field(r, "dresult"), "Flr")
+                    raise PyRaise(SV(self.get_field(self.refof(flr), "value"), "exc"), note="failure of the awaited Deferred")
+                return SV(self.get_field(r, "dresult"), None)
+            return v            # a plain value is its own result
         out = self.frame.locals.get("_out")
         if not isinstance(out, PSeq):
             self.unsupported(node, "yield outside a generator frame")
